@@ -133,8 +133,15 @@ def class_source(cls) -> str:
     """cls: {"generic": bool, "attrs": [{"name","term","default"}]}"""
     aliases: list = []
     lines = []
-    for a in cls["attrs"]:
+    redeclared = None
+    for n, a in enumerate(cls["attrs"]):
         ann = render(a["term"], aliases)
+        if n == 0 and cls.get("derived") == "redeclare" and not cls["generic"] and a.get("default") is None:
+            # the base class declares this attribute with ANOTHER annotation; the derived class (the one under test)
+            # re-declares it with the generated one - its own declaration is the one that counts
+            redeclared = f"    {a['name']}: {ann}"
+            lines.append(f"    {a['name']}: bytes")
+            continue
         if a.get("default") is not None:
             lines.append(f"    {a['name']}: {ann} = {render_value(a['default'])}")
         else:
@@ -144,7 +151,7 @@ def class_source(cls) -> str:
         lines = ["    pass"]
     if cls.get("derived") and not cls["generic"]:
         # a derived class that declares one more attribute and inherits the rest: it is the class under test then
-        lines = [*lines, "class C0D(C0):", "    hv_extra: int = 0"]
+        lines = [*lines, "class C0D(C0):", *([redeclared] if redeclared else []), "    hv_extra: int = 0"]
     # postponed evaluation of annotations (PEP 563): every annotation reaches the library as a string. Only for
     # non-generic classes: typing.get_type_hints of Python 3.12.1 cannot see PEP 695 type parameters from strings.
     future = ["from __future__ import annotations"] if cls.get("future") and not cls["generic"] else []
@@ -241,6 +248,8 @@ def build(v, env: Env):
         return L.Impl()
     if k == "notimpl":
         return L.NotImpl()
+    if k == "maybeimpl":
+        return L.MaybeImpl(v["ok"])
     if k == "obj":
         return _OBJ
     if k == "state":
@@ -349,6 +358,8 @@ def render_value(v) -> str:
         return "Impl()"
     if k == "notimpl":
         return "NotImpl()"
+    if k == "maybeimpl":
+        return f"MaybeImpl({v['ok']})"
     if k == "state":
         return v["s"] + "(" + ", ".join(f"{n}={render_value(x)}" for n, x in v["f"].items()) + ")"
     if k == "gbox":
@@ -742,7 +753,7 @@ def gen_value(draw, t, ctx, depth=0):
     if k == "callable":
         return V("callable", x=draw(st.sampled_from(["len", "fn"])))
     if k == "protocol":
-        return V("impl")
+        return draw(st.sampled_from([V("impl"), V("impl"), V("maybeimpl", ok=True)]))
     if k == "state":
         if t["s"] == "Inner":
             f = {"v": V("int", x=draw(small))}
@@ -843,7 +854,7 @@ def gen_value(draw, t, ctx, depth=0):
 WRONG_POOL = [
     V("int", x=7), V("str", x="zz"), V("none"), V("obj"), V("float", x=2.5), V("bytes", x="b"), V("list", items=[]),
     V("list", items=[V("str", x="q")]), V("dict", items=[]), V("tuple", items=[V("int", x=1)]), V("bool", x=True),
-    V("enum", e="Color", m="RED"), V("state", s="Inner", f={"v": V("int", x=1)}), V("impl"), V("notimpl"),
+    V("enum", e="Color", m="RED"), V("state", s="Inner", f={"v": V("int", x=1)}), V("impl"), V("notimpl"), V("maybeimpl", ok=False), V("maybeimpl", ok=True),
     V("gbox", arg="str", val=V("str", x="g"), items=[]), V("set", items=[V("int", x=1)]),
     V("dict", items=[[V("obj"), V("obj")]]), V("list", items=[V("obj")]), V("missing"),
     # mappings that merely SPELL a nested state's attributes are not instances of it
